@@ -6,7 +6,7 @@ Import ListNotations.
 From Femto Require Import Persist.Paths.
 From FemtoTie Require Import PyPrelude.
 
-Inductive wact := WBegin (filename : string) | WEnd.
+Inductive wact := WBegin (filename : string) | WEnd | WFab.     (* WFab: self._fabtime = <the local estimate of this export> *)
 Record wn_cfg := { wn_filename : string; wn_has_objects : bool }.     (* self.filename; whether self.obj_list holds anything *)
 Definition MW : Type -> Type := @M (list wact).
 Definition wemit (a : wact) : MW unit := fun s => (Ret tt, (s ++ [a])%list).
